@@ -12,7 +12,12 @@ RULE = ('version pairs: full cross product of a grid with multi-digit components
         'padded/short/leading-zero/v-prefixed spellings, through BOTH layers; connect: every pair of probe outcomes '
         '{good vX, empty, blank line, non-EBB line, lower-case ebb, raise} x open ok/fail x write faults x grid versions x '
         'CU/QT continuations, each followed by two ordinary requests and a re-connect; legacy: every gated function x grid '
-        'version x reply timing; a case is non-trivial when the device is not simply a prompt supported board; '
+        'version x reply timing; SEQUENCES: two sessions on the same serial device name for every gated legacy '
+        'function (responsive board fakes carrying pyserial attributes port/name; session 1 ended by closePort / a raising '
+        'close / port.close() / abandonment; versions (A,B) around each gate; every call judged), and EBB3 connection '
+        'sequences (same object after disconnect / raising close / immediate retry, or a new object; per-port read chunks) '
+        'with every connect judged and assignments to err observed; I/O faults signalled as plain OSError at open and at '
+        'each probe read/write; a case is non-trivial when the device is not simply a prompt supported board; '
         'distinct by the full scenario tuple')
 TRUSTED = ['harness/c15.py fake port (scripted readline/write/open outcomes) and the AST literal extractor',
            'modelled not verified: packaging.version on release-only versions (validated by this run against the '
@@ -21,7 +26,12 @@ ASSUMPTIONS = ['device bytes are ASCII; version texts are release-only (digits a
                'below the int-string-digits limit; a reply containing EBB but no "Firmware Version " text, and '
                'pre-release/dev version texts, are outside the quantifier (logged)',
                'port location (find_first/find_named, C19) is an input of the connect model',
-               'close()/reset_input_buffer() of the port do not raise']
+               'reset_input_buffer() of the port does not raise; a raising close() is exercised (python side) and has no '
+               'effect on the model state',
+               'the "raising" class of the handshake = what a pyserial port can raise for an I/O failure: '
+               'SerialException, and plain OSError/IOError (pyserial posix open() lets the OSError of its DTR/RTS ioctl '
+               'escape; command()/query() list these classes). The Lean model covers the classes the try block of connect '
+               'contains (read from the AST); OSError scenarios are always judged by the oracle']
 STAGED = []
 
 MIN_DOC = (3, 0, 2)                       # "the supported minimum" (DESIGN C15, MIN_VERSION_STRING comment)
@@ -140,13 +150,26 @@ RAISE = 'X'
 
 
 class Script:
-    """reads: list of bytes | b'' | RAISE;  writes: list of 'o' | 'x';  opens: list of bools"""
+    """reads: list of bytes | b'' | RAISE;  writes: list of 'o' | 'x';  opens: list of bools;
+    closes: list of 'o' | 'x' (close() raises SerialException: the device has vanished)"""
 
-    def __init__(self, reads, writes=(), opens=()):
-        self.reads, self.writes, self.opens = list(reads), list(writes), list(opens)
-        self.nr = self.nw = self.no = 0
+    def __init__(self, reads, writes=(), opens=(), closes=()):
+        self.reads, self.writes, self.opens, self.closes = list(reads), list(writes), list(opens), list(closes)
+        self.nr = self.nw = self.no = self.nc = 0
         self.written = []
         self.exc = None
+        self.close_exc = None
+        self.trace = []           # read outcomes delivered so far, in order
+        self.chunks = None        # optional: one list of read outcomes per successfully opened port (session)
+        self.cnr = []
+        self.nports = 0
+
+    def set_chunks(self, chunks):
+        """each port object opened on this script reads from its own chunk only (silence after it), so that the
+        ground truth of a session does not depend on how many reads an earlier session consumed"""
+        self.chunks = [list(c) for c in chunks]
+        self.cnr = [0] * len(chunks)
+        self.reads = [x for c in chunks for x in c]
 
     def toks(self):
         r = '/'.join('X' if x == RAISE else ('E' if x == b'' else 'L' + enc_str(x.decode('ascii'))) for x in self.reads) or '.'
@@ -155,12 +178,30 @@ class Script:
         return o, r, w
 
     def consumed(self):
-        return min(self.nr, len(self.reads)), min(self.nw, len(self.writes)), min(self.no, len(self.opens))
+        nr = min(self.nr, len(self.reads)) if self.chunks is None else \
+            sum(min(n, len(c)) for n, c in zip(self.cnr, self.chunks))
+        return nr, min(self.nw, len(self.writes)), min(self.no, len(self.opens))
 
 
 class FakePort:
-    def __init__(self, script):
+    """scripted stand-in for a pyserial `Serial` object; carries the attributes pyserial ports have
+    (`port`, `name`, `portstr`, `is_open`, `timeout`, `baudrate`) so that code keyed on them is exercised"""
+
+    _n = 0
+
+    def __init__(self, script, device=None):
+        if device is None:          # single-call streams: every port object has its own device name
+            FakePort._n += 1
+            device = f'/dev/ttyS{FakePort._n}'
         self.s = script
+        self.chunk = script.nports
+        script.nports += 1
+        self.port = device
+        self.name = device
+        self.portstr = device
+        self.is_open = True
+        self.timeout = 1.0
+        self.baudrate = 9600
 
     def write(self, data):
         i = self.s.nw
@@ -171,17 +212,30 @@ class FakePort:
         return len(data)
 
     def readline(self):
-        i = self.s.nr
-        self.s.nr += 1
-        if i >= len(self.s.reads):
-            return b''
-        r = self.s.reads[i]
+        if self.s.chunks is not None:
+            if self.chunk >= len(self.s.chunks):
+                self.s.trace.append(b'')
+                return b''
+            i = self.s.cnr[self.chunk]
+            self.s.cnr[self.chunk] += 1
+            src = self.s.chunks[self.chunk]
+        else:
+            i = self.s.nr
+            self.s.nr += 1
+            src = self.s.reads
+        r = src[i] if i < len(src) else b''
+        self.s.trace.append(r)
         if r == RAISE:
             raise self.s.exc('scripted read failure')
         return r
 
     def close(self):
-        pass
+        i = self.s.nc
+        self.s.nc += 1
+        self.is_open = False
+        if i < len(self.s.closes) and self.s.closes[i] == 'x':
+            raise (self.s.close_exc or self.s.exc)('device reports readiness to read but returned no data '
+                                                  '(device disconnected?)')
 
     def reset_input_buffer(self):
         pass
@@ -196,7 +250,7 @@ def serial_factory(script):
         script.no += 1
         if i < len(script.opens) and not script.opens[i]:
             raise script.exc('scripted open failure')
-        return FakePort(script)
+        return FakePort(script, name)
     return make
 
 
@@ -273,13 +327,18 @@ def run(ctx):
         version_stream(ctx, P, PT, grid, ebb3_serial, ebb_serial, exc)
         connect_stream(ctx, P, PT, grid, ebb3_serial, pyserial, exc)
         legacy_stream(ctx, P, PT, grid, ebb_serial, ebb_motion, exc)
+        legacy_sessions(ctx, P, PT, ebb_serial, ebb_motion, exc)
+        connect_sessions(ctx, P, PT, ebb3_serial, pyserial, exc)
+        connect_ioerror(ctx, P, PT, ebb3_serial, pyserial, exc)
     finally:
         pyserial.Serial, ebb3_serial.comports = saved
         lg.setLevel(lg_state[0])
         lg.propagate = lg_state[1]
     need = ['order:ge:multidigit', 'order:lt:multidigit', 'parse:release', 'parse:None', 'connect:accept', 'connect:old',
             'connect:reject:notebb', 'connect:reject:raise', 'connect:reject:openfail', 'connect:reject:noport',
-            'connect:outside'] + [f'gate:{f}:{k}' for f in GATE_DOC for k in ('sent', 'held')]
+            'connect:outside'] + [f'gate:{f}:{k}' for f in GATE_DOC for k in ('sent', 'held')] + \
+        [f'sessions:{f}:second:{k}' for f in GATE_DOC for k in ('sent', 'held')] + \
+        ['sessions:connect:second:accept', 'sessions:connect:second:old', 'ioerror:open', 'ioerror:probe']
     missing = [p for p in need if not ctx.paths.get(p)]
     if missing and not ctx.violations and not ctx.disagreements:
         raise Infra('scenario classes that received no input: ' + ', '.join(missing))
@@ -550,10 +609,10 @@ def connect_stream(ctx, P, PT, grid, ebb3_serial, pyserial, exc):
             before = len(s.written)
             try:
                 if op == 'C':
-                    r = e.connect(given, caller)
-                    rs = 'True' if r is True else 'False' if r is False else repr(r)
                     if first is not None:
                         seen_second_connect = True
+                    r = e.connect(given, caller)
+                    rs = 'True' if r is True else 'False' if r is False else repr(r)
                 else:
                     was_blocked = (e.port is None) or (e.err is not None)
                     if not was_blocked:       # an ordinary request on a working connection: C04/C05, not modelled here
@@ -730,3 +789,440 @@ def legacy_stream(ctx, P, PT, grid, ebb_serial, ebb_motion, exc):
         ctx.notes.append(f'{f5_seen} legacy cases with a late version reply raised TypeError (DESIGN §9 F5, owned by C07): '
                          'nothing is transmitted in that case, so C15 is not violated; the model reproduces it through '
                          'the extracted flag decodeRetry=' + str(P['decodeRetry']))
+
+
+# ----------------------------------------------------------------------------------------------
+# 4. two sessions on the same serial device name, legacy layer  (state carried between calls / ports)
+# ----------------------------------------------------------------------------------------------
+class BoardPort:
+    """a responsive board behind a pyserial-like port object (`port`, `name`, `portstr`, `is_open`):
+    answers `V` with its own firmware version and every other request with a plausible reply"""
+
+    def __init__(self, device, fw, exc):
+        self.port = self.name = self.portstr = device
+        self.is_open = True
+        self.timeout = 1.0
+        self.baudrate = 9600
+        self.fw = fw
+        self.exc = exc
+        self.sent = []
+        self.pending = []
+        self.trace = []
+        self.unplugged = False
+
+    def write(self, data):
+        self.sent.append(bytes(data))
+        t = bytes(data).decode('ascii').strip().upper()
+        if t == 'V':
+            self.pending.append(V(self.fw))
+        elif t.startswith('QT'):
+            self.pending += [b'East Wing\r\n', b'OK\r\n']
+        elif t.startswith('QC'):
+            self.pending += [b'0394,0300\r\n', b'OK\r\n']
+        else:
+            self.pending.append(b'OK\r\n')
+        return len(data)
+
+    def readline(self):
+        r = self.pending.pop(0) if self.pending else b''
+        self.trace.append(r)
+        return r
+
+    def close(self):
+        self.is_open = False
+        if self.unplugged:
+            raise self.exc('device reports readiness to read but returned no data (device disconnected?)')
+
+    def reset_input_buffer(self):
+        pass
+
+    def flushInput(self):
+        pass
+
+
+def around(g):
+    """version spellings at, just above, far above (multi-digit) and below (incl. multi-digit) a threshold"""
+    a, b, c = g
+    above = [(a, b, c), (a, b, c + 1), (a, b, c + 10), (a, b + 4, 1), (a, b + 10, 0)]
+    below = [(a, b, c - 1)] if c else []
+    if b:
+        below += [(a, b - 1, 9), (a, b - 1, c + 10), (a, b - 1, 99)]
+    below += [(a - 1, 99, 99)] if a else []
+    if not c and not b:
+        below += [(a - 1, 9, 9)]
+    f = lambda t: '.'.join(map(str, t))
+    return [f(t) for t in above], [f(t) for t in below if min(t) >= 0]
+
+
+LEG_FEATS = [('servo_timeout', 'servo 60000 N', b'SR,60000\r'),
+             ('queryVoltage', 'volt', b'QC\r'),
+             ('query_nickname', 'qnick 0', b'QT\r'),
+             ('write_nickname', 'wnick ' + enc_str('Plotter 7'), b'ST,Plotter 7\r'),
+             ('reboot', 'reboot', b'RB\r')]
+
+
+def _leg_call(name, ebb_serial, ebb_motion, p):
+    if name == 'servo_timeout':
+        return ebb_motion.servo_timeout(p, 60000, None, False)
+    if name == 'queryVoltage':
+        return ebb_motion.queryVoltage(p, False)
+    if name == 'query_nickname':
+        return ebb_serial.query_nickname(p, False)
+    if name == 'write_nickname':
+        return ebb_serial.write_nickname(p, 'Plotter 7')
+    return ebb_serial.reboot(p)
+
+
+def legacy_sessions(ctx, P, PT, ebb_serial, ebb_motion, exc):
+    rng = ctx.rng
+    endings = ['closePort()', 'unplugged, then closePort()', 'port.close() called directly', 'port object abandoned']
+    seqs = []
+    n = 0
+    for fi, (name, mtok, cmd) in enumerate(LEG_FEATS):
+        above, below = around(GATE_DOC[name])
+        vs = above + below + ['2.8.1', '2.5.9', '2.10.0', '2.5.10']
+        pairs = [(a, b) for a in above + ['2.8.1', '2.10.0'] for b in below] + \
+                [(b, a) for a in above[:2] for b in below[:2]] + [(a, a) for a in (above[0], below[0])]
+        for (a, b) in pairs:
+            for end in endings:
+                n += 1
+                dev = f'/dev/ttyACM{n}' if n % 2 else f'COM{3 + n}'      # one device name per sequence: self-contained histories
+                first_calls = [name] if n % 3 else [name, LEG_FEATS[(fi + 1) % 5][0], name]
+                seqs.append((dev, a, first_calls, end, b))
+    for _ in range(ctx.n(300)):
+        name = rng.choice(LEG_FEATS)[0]
+        above, below = around(GATE_DOC[name])
+        a, b = rng.choice(above + below + [rand_version(rng)]), rng.choice(above + below + [rand_version(rng)])
+        n += 1
+        seqs.append((rng.choice(['/dev/ttyACM', '/dev/ttyUSB', 'COM', '/dev/cu.usbmodem']) + str(1000 + n), a,
+                     [rng.choice(LEG_FEATS)[0] for _ in range(rng.randint(1, 3))], rng.choice(endings), b))
+    byname = {f[0]: f for f in LEG_FEATS}
+    records = []      # (inp, name, cmd, fw, session, rs, delta, trace)
+    for dev, a, first_calls, end, b in seqs:
+        order2 = [f[0] for f in LEG_FEATS]
+        rng.shuffle(order2)
+        history = []
+        for session, (fw, calls) in enumerate(((a, first_calls), (b, order2)), start=1):
+            port = BoardPort(dev, fw, exc)
+            for name in calls:
+                _, mtok, cmd = byname[name]
+                before = len(port.sent)
+                port.trace = []
+                try:
+                    r = _leg_call(name, ebb_serial, ebb_motion, port)
+                    rs = 'None' if r is None else 'True' if r is True else 'False' if r is False else \
+                        'S' + enc_str(r) if isinstance(r, str) else repr(r)
+                except Exception as ex:
+                    rs = 'EXC:' + type(ex).__name__
+                delta = port.sent[before:]
+                history.append({'session': session, 'device': dev, 'board firmware': fw, 'call': name,
+                                'transmitted': [x.decode('ascii') for x in delta]})
+                inp = {'device name': dev, 'first session': {'firmware': a, 'calls': first_calls, 'ended by': end},
+                       'second session firmware': b, 'history up to the failing call': list(history)}
+                records.append((inp, name, mtok, cmd, fw, session, rs, delta, list(port.trace)))
+            if session == 1:
+                if end == endings[0]:
+                    ebb_serial.closePort(port)
+                elif end == endings[1]:
+                    port.unplugged = True
+                    ebb_serial.closePort(port)
+                elif end == endings[2]:
+                    port.close()
+            else:
+                ebb_serial.closePort(port)
+    lines = []
+    for inp, name, mtok, cmd, fw, session, rs, delta, trace in records:
+        r = '/'.join('E' if x == b'' else 'L' + enc_str(x.decode('ascii')) for x in trace) or '.'
+        lines.append(f'c15 leg {PT} {r} . {mtok}')
+    outs = ctx.driver.batch(lines) if ctx.driver else [None] * len(lines)
+    for (inp, name, mtok, cmd, fw, session, rs, delta, trace), out in zip(records, outs):
+        sent = [x for x in delta if x != b'V\r']
+        path = f'sessions:{name}:' + ('first' if session == 1 else 'second') + ':' + ('sent' if sent else 'held')
+        ctx.count(('sess', json.dumps(inp, sort_keys=True)), path, True)
+        impl = f'{rs} | {written_tok(delta)} r={len(trace)} w=0'
+        if out is not None and out != impl:
+            ctx.disagree(f'legacy {name} in a two-session sequence (the model is stateless across calls: every call '
+                         f'asks the board)', inp, impl, out)
+        gate = GATE_DOC[name]
+        if sent and not num_ge(vt(fw), gate):
+            ctx.violate(f'{name} transmitted its command to a board reporting {fw} (needs {".".join(map(str, gate))})'
+                        + (' in a second session on the same device name' if session == 2 else ''), inp,
+                        repr(delta), 'the command is not transmitted', key=f'gate-{name}-open')
+        if any(x != cmd for x in sent) or len(sent) > 1:
+            ctx.violate(f'{name} transmitted something other than its command', inp, repr(delta),
+                        repr([b'V\r', cmd]), key=f'gate-{name}-other-bytes')
+    ctx.sample({'two-session sequence': records[0][0] if records else None})
+
+
+# ----------------------------------------------------------------------------------------------
+# 5. EBB3: sequences of connections (same object re-used, or a new object) on the same device name
+# ----------------------------------------------------------------------------------------------
+def _must_refuse(tr):
+    return (isinstance(tr, str) and tr.startswith('reject')) or (isinstance(tr, tuple) and not num_ge(tr[1], MIN_DOC))
+
+
+def run_conn_ops(ebb3_serial, pyserial, s, ops, given, caller, truths):
+    """run ops on the real code. ops: C connect, R request, D disconnect, X disconnect with close() raising,
+    N new EBB3 object, P port.close() called directly (python side only).
+    returns (result strings aligned with the model's ops, per-connect records, final object)"""
+    pyserial.Serial = serial_factory(s)
+    erased = []
+
+    class Observed(ebb3_serial.EBB3):       # sees every assignment to `err`, also ones undone before the next I/O
+        def __setattr__(self, name, value):
+            if name == 'err' and value is None and getattr(self, 'err', None) is not None:
+                erased.append(getattr(self, 'err'))
+            object.__setattr__(self, name, value)
+
+    e = Observed()
+    res, recs = [], []
+    cur = None
+    nreq = 0
+    ci = 0
+    for op in ops:
+        before = len(s.written)
+        n_erased = len(erased)
+        if op == 'C':
+            shortcut = e.port is not None      # "already connected": no handshake, the device is the one of `cur`
+            if shortcut:
+                tr = cur['truth'] if cur is not None else None
+            else:
+                tr = truths[ci] if ci < len(truths) else None
+                ci += 1
+            err_before = e.err
+            try:
+                r = e.connect(given, caller)
+                rs = 'True' if r is True else 'False' if r is False else repr(r)
+            except Exception as ex:
+                name = type(ex).__name__
+                rs = 'EXC:' + ('versionSyntax' if name == 'InvalidVersion' else name)
+            prev_refused = cur is not None and shortcut and _must_refuse(tr) and bool(err_before)
+            cur = {'truth': tr, 'shortcut': shortcut, 'ret': rs, 'err': e.err, 'err_before': err_before,
+                   'erased': list(erased[n_erased:]) if prev_refused else [],
+                   'written': s.written[before:],
+                   'later_blocked_writes': [], 'unblocked_writes': [], 'bad_blocked_return': None}
+            recs.append(cur)
+            res.append(f'{rs}:{len(s.written)}')
+        elif op == 'R':
+            blocked_now = (e.port is None) or (e.err is not None)
+            if not blocked_now:
+                res.append(f'UNMODELLED:{len(s.written)}')
+                if cur is not None and _must_refuse(cur['truth']):
+                    nr0, nw0 = s.nr, s.nw
+                    try:
+                        e.command('EM,1,1')
+                    except Exception:
+                        pass
+                    cur['unblocked_writes'] = s.written[before:]
+                    del s.written[before:]
+                    s.nr, s.nw = nr0, nw0
+                break
+            nreq += 1
+            try:
+                r = e.command('EM,1,1') if nreq % 2 else e.query('QG')
+                bad = (r is not False) if nreq % 2 else (r is not None)
+            except Exception as ex:
+                r, bad = ex, True
+            if cur is not None:
+                cur['later_blocked_writes'] += s.written[before:]
+                cur['erased'] = cur.get('erased', []) + erased[n_erased:]
+                if bad:
+                    cur['bad_blocked_return'] = repr(r)
+            res.append(f'blocked:{len(s.written)}')
+        elif op in 'DX':
+            if op == 'X':
+                s.closes = ['o'] * s.nc + ['x']
+            e.disconnect()
+            cur = None
+            res.append(f'disc:{len(s.written)}')
+        elif op == 'N':
+            e = Observed()
+            cur = None
+            res.append(f'new:{len(s.written)}')
+        elif op == 'P':
+            if e.port is not None:
+                try:
+                    e.port.close()
+                except Exception:
+                    pass
+    return res, recs, e
+
+
+def conn_state(e, s, res):
+    vp = e.version_parsed
+    state = (f"port={1 if e.port is not None else 0} err={opt_tok(e.err)} version={opt_tok(e.version)} "
+             f"vparsed={'N' if vp is None else '.'.join(map(str, vp.release))} name={opt_tok(e.name)} "
+             f"caller={opt_tok(e.caller)} portName={opt_tok(e.port_name)}")
+    nr, nw, no = s.consumed()
+    return f"{';'.join(res)} | {state} | {written_tok(s.written)} r={nr} w={nw} o={no}"
+
+
+def judge_connects(ctx, recs, inp, key=None):
+    """every connect of the sequence against the statement"""
+    for k, rec in enumerate(recs):
+        tr = rec['truth']
+        if tr is None or tr == 'outside' or not _must_refuse(tr):
+            continue
+        nth = f'connect #{k + 1} of the sequence'
+        why = tr if isinstance(tr, str) else f'firmware {".".join(map(str, tr[1]))} older than 3.0.2'
+        if rec['shortcut']:
+            # connect() called again on an object that kept its port after a refusal: it may answer "already
+            # connected" (True) as long as the error stays recorded; judged: never "True with no error", no traffic
+            nth += ' (retry on the same object, port kept)'
+            if rec['ret'] == 'True' and rec['err'] is None:
+                ctx.violate(f'{nth} returned True with no error for a device that was refused ({why})', inp,
+                            'True, err=None', 'an error stays recorded', key=key or 'connect-true-no-error')
+            if rec['written']:
+                ctx.violate(f'{nth}: a refused device received more traffic ({why})', inp, repr(rec['written']),
+                            'nothing', key=key or 'refused-device-written')
+        elif rec['ret'] != 'False':
+            ctx.violate(f'{nth} did not return False for a device that must be refused ({why})', inp, rec['ret'], 'False',
+                        key=key or ('connect-accepts-unsupported' if rec['ret'] == 'True' else 'connect-raises-on-unsupported'))
+        if not rec['shortcut'] and rec['ret'] == 'True' and rec['err'] is None:
+            ctx.violate(f'{nth} returned True with no error for a device that must be refused ({why})', inp,
+                        'True, err=None', 'False with an error', key=key or 'connect-true-no-error')
+        if not rec['err']:
+            ctx.violate(f'{nth}: no error recorded after refusing a device ({why})', inp, repr(rec['err']),
+                        'an error message', key=key or 'connect-no-error-recorded')
+        allowed = [] if tr in ('reject:noport', 'reject:openfail') else [b'v\r', b'v\r']
+        w = rec['written']
+        if not rec['shortcut'] and (w != allowed[:len(w)] or len(w) > len(allowed)):
+            ctx.violate(f'{nth}: a refused device received more than the version probe(s) ({why})', inp, repr(w),
+                        'a prefix of ' + repr(allowed), key=key or 'refused-device-written')
+        if rec.get('erased'):
+            ctx.violate(f'the error recorded for a refused device ({why}) was erased by a later call on the object', inp,
+                        'err reset to None; was ' + repr(rec['erased'][0])[:80], 'the error stays recorded',
+                        key=key or 'refusal-error-erased')
+        if rec['unblocked_writes']:
+            ctx.violate(f'after {nth} (refused, {why}) the object is not blocked: a request reached the device', inp,
+                        repr(rec['unblocked_writes']), 'nothing after the probes', key=key or 'refused-then-transmits')
+        if rec['later_blocked_writes'] or rec['bad_blocked_return']:
+            ctx.violate(f'requests after {nth} (refused, {why}) transmitted or succeeded', inp,
+                        repr(rec['later_blocked_writes']) + ' ret=' + str(rec['bad_blocked_return']),
+                        'nothing after the probes, failure values', key=key or 'refused-then-transmits')
+
+
+def connect_sessions(ctx, P, PT, ebb3_serial, pyserial, exc):
+    rng = ctx.rng
+    acc = ['3.0.2', '3.0.10', '3.10.0', '10.0.0']
+    old = ['3.0.1', '2.10.0']
+    second = ['3.0.1', '3.0.0', '2.10.0', '2.9.9', '2.6.0', '3.0.2', '3.0.10', '3.1.0']
+    s1 = [('accepted ' + a, [V(a), b'CU\r\n', b'QT,One\r\n'], ('ebb', vt(a))) for a in acc] + \
+         [('refused ' + a, [V(a)], ('ebb', vt(a))) for a in old] + \
+         [('mute', [b'', b'hello\r\n'], 'reject:notebb')]
+    endings = ['D', 'X', 'DN', 'XN', 'N', 'PN', '', 'R', 'RR']     # '' / 'R': connect() retried on the same object
+    scen = []
+    for (l1, r1, t1) in s1:
+        for end in endings:
+            for b in second:
+                for l2, pre in (('prompt', []), ('late', [b'']), ('after-noise', [b'xyz\r\n'])):
+                    chunks = [r1, pre + [V(b), b'CU\r\n', b'QT,Two\r\n']]
+                    scen.append((f'{l1} / {end} / {l2} {b}', chunks, 'C' + end + 'CRR', [t1, ('ebb', vt(b))]))
+            scen.append((f'{l1} / {end} / mute', [r1, [b'', b'']], 'C' + end + 'CRR', [t1, 'reject:notebb']))
+    for _ in range(ctx.n(300)):       # three connections
+        picks = [rng.choice(s1) for _ in range(2)]
+        b = rng.choice(second)
+        ops = 'C' + rng.choice(endings) + 'C' + rng.choice(endings) + 'CRR'
+        scen.append(('three: ' + ' / '.join(p[0] for p in picks) + f' / {b}', [picks[0][1], picks[1][1], [V(b), b'CU\r\n', b'QT,Two\r\n']],
+                     ops, [picks[0][2], picks[1][2], ('ebb', vt(b))]))
+    ebb3_serial.comports = lambda: [PORT]
+    runs, lines = [], []
+    for label, chunks, ops, truths in scen:
+        s = Script([])
+        s.set_chunks(chunks)
+        s.exc = exc
+        res, recs, e = run_conn_ops(ebb3_serial, pyserial, s, ops, None, None, truths)
+        # the model reads one flat script: the outcomes this run delivered, in order, then what the last port
+        # would still have delivered
+        k = min(s.nports, len(chunks)) - 1
+        flat = list(s.trace) + (chunks[k][s.cnr[k]:] if k >= 0 else [])
+        o, r, w = Script(flat).toks()
+        mops = ops.replace('P', '').replace('X', 'D')
+        lines.append(f'c15 conn {PT} N {opt_tok(PORT[0])} N {o} {r} {w} {mops}')
+        st = conn_state(e, s, res)
+        runs.append((recs, st[:st.rindex(' r=')] + f' r={len(s.trace)} w=0 o=0'))
+    outs = ctx.driver.batch(lines) if ctx.driver else [None] * len(lines)
+    for (label, chunks, ops, truths), (recs, impl), out in zip(scen, runs, outs):
+        inp = {'scenario': label, 'device name': PORT[0],
+               'reads per opened port': [[x.decode('ascii') for x in c] for c in chunks], 'ops': ops,
+               'ops legend': 'C connect, D disconnect, X disconnect while close() raises, N new EBB3 object, '
+                             'P port.close() called directly, R request',
+               'truth per connect': [t if isinstance(t, str) else ['ebb', list(t[1])] for t in truths]}
+        last = truths[-1]
+        ctx.count(('csess', label, ops), 'sessions:connect:second:' + (
+            'reject' if isinstance(last, str) else 'accept' if num_ge(last[1], MIN_DOC) else 'old'), True)
+        if out is not None and out != impl:
+            ctx.disagree('connect sequence', inp, impl, out)
+        judge_connects(ctx, recs, inp)
+    ctx.sample({'connect sequence': scen[1][0], 'ops': scen[1][2]})
+
+
+# ----------------------------------------------------------------------------------------------
+# 6. I/O faults that the port signals with a plain OSError (pyserial's posix open() lets the OSError of the
+#    DTR/RTS ioctl escape unwrapped; command()/query() list OSError/IOError among the serial I/O exceptions)
+# ----------------------------------------------------------------------------------------------
+def handshake_contains_oserror(notes):
+    try:
+        t3 = ast.parse(open(os.path.join(REPO, 'plotink', 'ebb3_serial.py')).read())
+        fn = _func(t3, 'connect', 'EBB3')
+        for node in ast.walk(fn):
+            if isinstance(node, ast.Try) and any(isinstance(c, ast.Attribute) and c.attr == 'Serial' for b in node.body for c in ast.walk(b)):
+                names = set()
+                for h in node.handlers:
+                    if h.type is None:
+                        return True
+                    for c in ast.walk(h.type):
+                        if isinstance(c, ast.Name):
+                            names.add(c.id)
+                        elif isinstance(c, ast.Attribute):
+                            names.add(c.attr)
+                return bool(names & {'OSError', 'IOError', 'EnvironmentError', 'Exception', 'BaseException'})
+    except Exception as ex:
+        notes.append(f'could not read the except clause of connect: {ex!r}')
+    return False
+
+
+def connect_ioerror(ctx, P, PT, ebb3_serial, pyserial, exc):
+    import errno
+    oserr = lambda msg: OSError(errno.EIO, 'Input/output error')
+    contained = handshake_contains_oserror(ctx.notes)
+    scen = []
+    for v in ('3.0.2', '3.0.1', '2.10.0'):
+        good = [V(v), b'CU\r\n', b'QT,Bob\r\n']
+        scen.append((f'open raises OSError(EIO), board {v}', [False], good, [], 'CRRCR', 'reject:openfail', 'open'))
+        scen.append((f'first probe write raises OSError, board {v}', [], good, ['x'], 'CRRCR', 'reject:raise', 'probe'))
+        scen.append((f'first probe read raises OSError, board {v}', [], [RAISE] + good, [], 'CRRCR', 'reject:raise', 'probe'))
+        scen.append((f'second probe write raises OSError, board {v}', [], [b''] + good, ['o', 'x'], 'CRRCR', 'reject:raise', 'probe'))
+        scen.append((f'second probe read raises OSError, board {v}', [], [b'junk\r\n', RAISE] + good, [], 'CRRCR', 'reject:raise', 'probe'))
+    ebb3_serial.comports = lambda: [PORT]
+    lines = []
+    for label, opens, reads, writes, ops, tr, where in scen:
+        o, r, w = Script(reads, writes, opens).toks()
+        lines.append(f'c15 conn {PT} N {opt_tok(PORT[0])} N {o} {r} {w} {ops}')
+    outs = ctx.driver.batch(lines) if ctx.driver else [None] * len(lines)
+    for (label, opens, reads, writes, ops, tr, where), out in zip(scen, outs):
+        s = Script(reads, writes, opens)
+        s.exc = oserr
+        s.close_exc = exc
+        res, recs, e = run_conn_ops(ebb3_serial, pyserial, s, ops, None, None, [tr, None])
+        impl = conn_state(e, s, res)
+        inp = {'scenario': label, 'device name': PORT[0], 'opens': opens,
+               'reads': [x if x == RAISE else x.decode('ascii') for x in reads], 'writes': ''.join(writes), 'ops': ops,
+               'exception class raised by the port': 'OSError(errno.EIO)', 'truth': tr}
+        ctx.count(('ioerr', label), 'ioerror:' + where, True)
+        escaped = recs and recs[0]['ret'] == 'EXC:OSError'
+        if escaped:
+            after = (f"; connect() again -> {recs[1]['ret']} with err={recs[1]['err']!r}" if len(recs) > 1 else '') + \
+                    (f"; a later command was transmitted: {recs[0]['unblocked_writes']!r}" if recs[0]['unblocked_writes'] else '')
+            ctx.violate('an I/O failure that the port signals with a plain OSError (at open or at a handshake read/write) '
+                        'escapes connect(): no False, no error recorded' + (', the object is left connected and unblocked'
+                                                                          if where == 'probe' else ''),
+                        inp, 'connect() raised OSError, err=' + repr(recs[0]['err']) + after,
+                        'False with an error recorded; nothing beyond the version probe(s)', key='connect-io-error-escapes')
+            continue
+        if contained and out is not None and out != impl:
+            ctx.disagree('connect with OSError faults', inp, impl, out)
+        judge_connects(ctx, recs, inp)
+    if not contained:
+        ctx.notes.append('connect()\'s try block does not list OSError/IOError: the OSError-fault scenarios are judged by the '
+                         'oracle only (the model describes the exception classes the handshake contains)')
